@@ -445,4 +445,66 @@ def tensorCells3 (xs ys zs : List Rat) : List Cell3 :=
 def tensorVolumeSum3 (xs ys zs : List Rat) : Rat :=
   sumf (fun c => cellVol3 (tempCenter3 c) c) (tensorCells3 xs ys zs)
 
+/-! ### legacy (non-oriented) 2-D path, one side of a face -/
+
+/-- `cross(x_f − c, tangent)`: positive iff the face runs counter-clockwise as seen from `c` -/
+def OFace.chi (c : P2) (f : OFace) : Rat := (f.mx - c.x) * f.ty - (f.my - c.y) * f.tx
+
+/-- the face re-directed so that it runs counter-clockwise as seen from `c`, sign +1 -/
+def reorient (c : P2) (f : OFace) : OFace := if 0 ≤ f.chi c then ⟨f.a, f.b, 1⟩ else ⟨f.b, f.a, 1⟩
+
+/-- final normal of the legacy path as decided by this side of the face: `tangent × (0,0,1)`, reversed when
+    `sign · (x_f − c) · normal < 0` -/
+def legacyNx (c : P2) (f : OFace) : Rat := if f.s * f.chi c < 0 then -(f.nx 1) else f.nx 1
+def legacyNy (c : P2) (f : OFace) : Rat := if f.s * f.chi c < 0 then -(f.ny 1) else f.ny 1
+
+/-- arbitrary storage of a face: node order reversed or not, any sign -/
+def redirect (flip : Bool) (s : Rat) (f : OFace) : OFace := if flip then ⟨f.b, f.a, s⟩ else ⟨f.a, f.b, s⟩
+
+/-! ### rigid embedding of the planar model in 3-D -/
+
+/-- 3×3 matrix by rows -/
+structure M3 where
+  r1 : P3
+  r2 : P3
+  r3 : P3
+
+def M3.mulVec (R : M3) (v : P3) : P3 := ⟨R.r1.dot v, R.r2.dot v, R.r3.dot v⟩
+/-- `RᵀR = 1` (columns orthonormal): rotations and reflections -/
+def M3.Orth (R : M3) : Prop :=
+  R.r1.x * R.r1.x + R.r2.x * R.r2.x + R.r3.x * R.r3.x = 1 ∧
+  R.r1.y * R.r1.y + R.r2.y * R.r2.y + R.r3.y * R.r3.y = 1 ∧
+  R.r1.z * R.r1.z + R.r2.z * R.r2.z + R.r3.z * R.r3.z = 1 ∧
+  R.r1.x * R.r1.y + R.r2.x * R.r2.y + R.r3.x * R.r3.y = 0 ∧
+  R.r1.x * R.r1.z + R.r2.x * R.r2.z + R.r3.x * R.r3.z = 0 ∧
+  R.r1.y * R.r1.z + R.r2.y * R.r2.z + R.r3.y * R.r3.z = 0
+
+def lift (p : P2) : P3 := ⟨p.x, p.y, 0⟩
+/-- image of a point / of a vector of the plane under `x ↦ R x + b` -/
+def embedP (R : M3) (b : P3) (p : P2) : P3 := (R.mulVec (lift p)).add b
+def embedV (R : M3) (n : P2) : P3 := R.mulVec (lift n)
+
+/-! ### 3-D positivity vocabulary -/
+
+/-- `tc` lies strictly on the inner side of every face plane (faces oriented outward by their sign):
+    the cell is star-shaped with respect to `tc` -/
+def StarAbout (tc : P3) (cell : Cell3) : Prop :=
+  ∀ f ∈ cell, 0 < f.2 * ((mean3 f.1).sub tc).dot (faceN f.1)
+
+/-- convex cell with outward oriented faces: every face centre lies on the inner side of (or on) every
+    face plane, at least one strictly -/
+def ConvexCell (cell : Cell3) : Prop :=
+  ∀ f ∈ cell, 0 < (f.1.length : Rat) ∧
+    (∀ g ∈ cell, f.2 * ((faceCtr g.1).sub (mean3 f.1)).dot (faceN f.1) ≤ 0) ∧
+    ∃ g ∈ cell, f.2 * ((faceCtr g.1).sub (mean3 f.1)).dot (faceN f.1) < 0
+
+/-- parallelepiped `p + [0,1]u + [0,1]v + [0,1]w` with the face / node pattern of `tensorCell3` -/
+def paraCell (p u v w : P3) : Cell3 :=
+  [([p, p.add v, (p.add v).add w, p.add w], -1),
+   ([p.add u, (p.add u).add v, ((p.add u).add v).add w, (p.add u).add w], 1),
+   ([p, p.add w, (p.add w).add u, p.add u], -1),
+   ([p.add v, (p.add v).add w, ((p.add v).add w).add u, (p.add v).add u], 1),
+   ([p, p.add u, (p.add u).add v, p.add v], -1),
+   ([p.add w, (p.add w).add u, ((p.add w).add u).add v, (p.add w).add v], 1)]
+
 end PorepyVerif.C19
